@@ -5,6 +5,8 @@ _NAMES = {
     'solver': 'solver',
     'solver_faults': 'solver',
     'solver_parser': 'solver',
+    'solver_lattice': 'solver',
+    'solver_seq': 'solver',
     'multi': 'multi',
     'frame': 'frame',
     'tracer': 'tracer',
